@@ -260,8 +260,22 @@ def install(I):
     def core_is_concrete(v):
         return IN.is_concrete(v)
 
+    import collections
+
+    @model(collections.defaultdict)
+    def _defaultdict(I, factory=None, *a, **kw):
+        d = DictObj()
+        d.default_factory = factory
+        return d
+
     @model(builtins.all)
     def _all(I, it):
+        if isinstance(it, SymSeq) and getattr(it, "uniform", None) is not None:
+            # every element is `uniform[0]` (invariant-established); vacuous when empty
+            u = it.uniform[0]
+            tail = [x if isinstance(x, (bool, SBool)) else I.truth(x) for x in it.appended]
+            base = u if isinstance(u, (bool, SBool)) else I.truth(u)
+            return core.And(core.Or(it.n == 0, base), *tail) if tail or not isinstance(base, bool) or not base else True
         if isinstance(it, SymSeq):
             if hasattr(it, "forall"):
                 return it.forall(lambda x: x)
